@@ -323,6 +323,57 @@ func c14AcceptE2E(cc c14Case) (string, string) {
 	return exchangeCompressed(c, peer, false, n)
 }
 
+// handshakeIsolationScenario: what one connection's handshake negotiated belongs to that connection. A server connection A is
+// accepted in context-takeover mode from a plain offer; a second client then offers both no_context_takeover parameters to the
+// same server; A's options must be what A's response said, a third plain offer must be answered like the first, and A must
+// still decode a peer that uses its negotiated right to refer back to earlier messages.
+func handshakeIsolationScenario(rounds int) (string, string) {
+	for mode := 1; mode <= 2; mode++ {
+		accept := func(offer string) (*websocket.Conn, *hijackRW, negotiated, string) {
+			w := newHijackRW(nil)
+			c, err := websocket.Accept(w, upgradeRequest([]string{offer}, ""), &websocket.AcceptOptions{CompressionMode: websocket.CompressionMode(mode), CompressionThreshold: 1})
+			if err != nil {
+				return nil, nil, negotiated{}, err.Error()
+			}
+			n, ok := parseRespExt(w.Header().Get("Sec-WebSocket-Extensions"))
+			if !ok {
+				c.CloseNow()
+				return nil, nil, negotiated{}, "response " + w.Header().Get("Sec-WebSocket-Extensions")
+			}
+			return c, w, n, ""
+		}
+		a, wa, na, e := accept("permessage-deflate")
+		if e != "" {
+			return "accept-failed", e
+		}
+		defer a.CloseNow()
+		defer wa.peerSide.Close()
+		b, wb, _, e := accept("permessage-deflate; client_no_context_takeover; server_no_context_takeover")
+		if e != "" {
+			return "accept-failed", e
+		}
+		defer b.CloseNow()
+		defer wb.peerSide.Close()
+		st, _ := websocket.VerifConnState(a)
+		if st.Enabled != na.Enabled || st.ClientNoContextTakeover != na.CNCT || st.ServerNoContextTakeover != na.SNCT {
+			return "handshake-of-another-connection-changed-options", fmt.Sprintf("server mode %d: connection A negotiated %+v; after another client's handshake its options are %+v", mode, na, st)
+		}
+		c, wc, nc, e := accept("permessage-deflate")
+		if e != "" {
+			return "accept-failed", e
+		}
+		defer c.CloseNow()
+		defer wc.peerSide.Close()
+		if nc != na {
+			return "later-connection-inherits-negotiation", fmt.Sprintf("server mode %d: the same plain offer was answered %+v before and %+v after another client's handshake", mode, na, nc)
+		}
+		if sh, w := exchangeCompressed(a, newRawPeer(wa.peerSide, true), false, na); sh != "" {
+			return "after-foreign-handshake:" + sh, w
+		}
+	}
+	return "", ""
+}
+
 // c14DialE2E: the library client negotiates with a raw server answering `cc.Header`, then exchange.
 func c14DialE2E(cc c14Case) (string, string) {
 	a, b := newPipe()
@@ -466,6 +517,14 @@ func runC14(ctx *runCtx) {
 			rep.eval("replay")
 		}
 		return
+	}
+	{
+		sh, w := guarded(40*time.Second, func() (string, string) { return handshakeIsolationScenario(1) })
+		rep.eval("scenario/handshake-isolation")
+		rep.count("scenario:handshake-isolation")
+		if sh != "" {
+			rep.violate(Violation{Kind: "property", Shape: sh, What: w, Replay: map[string]interface{}{"scenario": "handshake-isolation"}})
+		}
 	}
 	rng := newRng(ctx.seed, "c14")
 	var lines, expect, what []string
